@@ -301,7 +301,9 @@ fn run_real(e: &SetEntry, specs: &[AcctSpec], n: usize, data: &[u8]) -> Real {
     CPI_HANDLER.with_borrow_mut(|h| {
         *h = Some(Box::new(|r| {
             TRACE.with_borrow_mut(|t| t.cpi = Some((String::new(), Some(r.clone()))));
-            Some(Ok(()))
+            // fall through: the rest of `invoke_signed` (the fixed-array `assert_eq!`s, pinocchio's pairing of
+            // infos with metas) runs for real; natively the syscall itself is a no-op
+            None
         }))
     });
     let entry = <HxIxSet as InstructionSet>::dispatch(&PID, infos, data);
@@ -377,7 +379,7 @@ impl Real {
     }
 }
 
-/// Run `f` in a forked child (10 s alarm, 4 GiB address space) and bring its JSON result back.
+/// Run `f` in a forked child (3 s alarm, 2 GiB address space) and bring its JSON result back.
 fn isolated(f: impl FnOnce() -> Value) -> std::result::Result<Value, String> {
     unsafe {
         let mut fds = [0i32; 2];
@@ -390,9 +392,9 @@ fn isolated(f: impl FnOnce() -> Value) -> std::result::Result<Value, String> {
         }
         if pid == 0 {
             libc::close(fds[0]);
-            let lim = libc::rlimit { rlim_cur: 4 << 30, rlim_max: 4 << 30 };
+            let lim = libc::rlimit { rlim_cur: 2 << 30, rlim_max: 2 << 30 };
             libc::setrlimit(libc::RLIMIT_AS, &lim);
-            libc::alarm(10);
+            libc::alarm(3);
             let out = match hx_common::catch(f) {
                 Ok(v) => v.to_string(),
                 Err(_) => "\"panic\"".to_string(),
@@ -633,6 +635,12 @@ fn exec_inner<'a>(rec: &mut Recorder, table: &'a [SetEntry], st: &mut St<'a>, t:
             specs.push(AcctSpec::new(PID, System::ID));
             // the real code runs in a forked child: a hang, an abort or a crash of a (mutated) decode then
             // becomes an oracle failure with this case as its failing input instead of killing the harness
+            if CRASHES.get() >= 3 {
+                // this (mutated) tree keeps hanging / crashing: do not wait for every further run
+                rec.fail("run_crashes_or_hangs", "(skipped after 3 crashes)");
+                st.run = Some(RunOut { reached_process: false, cpi: None });
+                return "crash".into();
+            }
             let real = match isolated(|| run_real(e, &specs, n, &ix.data).to_json()) {
                 Ok(v) if v.as_str() == Some("panic") => {
                     rec.fail("run_panics", &rec.current_case_text());
@@ -641,6 +649,7 @@ fn exec_inner<'a>(rec: &mut Recorder, table: &'a [SetEntry], st: &mut St<'a>, t:
                 }
                 Ok(v) => Real::from_json(&v).expect("child result parses"),
                 Err(how) => {
+                    CRASHES.set(CRASHES.get() + 1);
                     rec.fail("run_crashes_or_hangs", &format!("{how}: set {} client {client}", e.name));
                     st.run = Some(RunOut { reached_process: false, cpi: None });
                     return "crash".into();
@@ -716,7 +725,7 @@ fn exec_inner<'a>(rec: &mut Recorder, table: &'a [SetEntry], st: &mut St<'a>, t:
             }
         }
         ["cpi"] => {
-            let (Some(e), Some(shape), Some(client), Some((ix, _, darg))) = (st.entry, st.shape.clone(), st.client.clone(), st.ix.clone()) else {
+            let (Some(e), Some(shape), Some(client), Some((ix, run_args, darg))) = (st.entry, st.shape.clone(), st.client.clone(), st.ix.clone()) else {
                 return bad();
             };
             let Some(run) = &st.run else { return bad() };
@@ -742,8 +751,11 @@ fn exec_inner<'a>(rec: &mut Recorder, table: &'a [SetEntry], st: &mut St<'a>, t:
                     if r.declared_len != want_decl || (len != 100 && metas.len() != len) {
                         rec.fail("cpi_written_count_differs_from_declared_length", &format!("declared {} written {} AccountLen {len}", r.declared_len, metas.len()));
                     }
-                    if r.program_id != PID || r.data != ix.data {
-                        rec.fail("cpi_program_or_data_differs_from_client", "");
+                    // program id: the program account's key when the set has optionals, else the explicit override
+                    // (passed when run arg `c` is set) or the program's own id
+                    let want_pid = if !(e.statics)().2 && run_args.c { crate::sets::OVERRIDE_ID } else { PID };
+                    if r.program_id != want_pid || r.data != ix.data {
+                        rec.fail("cpi_program_or_data_differs_from_client", &format!("program id {} data {}", r.program_id, hex(&r.data)));
                     }
                     // never more privilege than the static meta of the account it stands for
                     if in_claim {
@@ -759,7 +771,7 @@ fn exec_inner<'a>(rec: &mut Recorder, table: &'a [SetEntry], st: &mut St<'a>, t:
                 }
                 (c, _) => {
                     if c == "err:Custom1006" && has_absent && !(e.statics)().2 && o_has_opt(&shape) {
-                        rec.fail("cpi_array_of_option_absent_missing_program", &format!("set {} client {client}: CPI -> {c}", e.name));
+                        rec.fail("cpi_absent_option_without_program_account", &format!("set {} client {client}: CPI -> {c}", e.name));
                     } else {
                         rec.fail("cpi_fails", &format!("set {} client {client}: CPI -> {c}", e.name));
                     }
@@ -1036,7 +1048,9 @@ pub fn run(args: &Args) {
             }
             rec.bump(&format!("set:{}", e.name));
             mark(&mut rec);
-            rec.sample_current(3);
+            if len == 1 && ["S22", "V12"].contains(&e.name) {
+                rec.sample_current(5);
+            }
         }
         // ---- random
         for batch in 0..n_batches {
@@ -1054,14 +1068,19 @@ pub fn run(args: &Args) {
                 emit_group(&mut rec, &table, &mut st, &mut rng, &shape, &v, true);
             }
             mark(&mut rec);
-            rec.sample_current(5);
+            if batch == 0 && ["S13", "S37", "V05"].contains(&e.name) {
+                rec.sample_current(5);
+            }
         }
     }
     rec.extra.insert("sets".into(), hx_common::json!(table.iter().map(|e| format!("{} {}", e.name, (e.shape)())).collect::<Vec<_>>()));
     rec.finish(args);
 }
 
-thread_local! { static NONTRIVIAL: std::cell::Cell<bool> = const { std::cell::Cell::new(false) }; }
+thread_local! {
+    static NONTRIVIAL: std::cell::Cell<bool> = const { std::cell::Cell::new(false) };
+    static CRASHES: std::cell::Cell<u32> = const { std::cell::Cell::new(0) };
+}
 
 fn mark(rec: &mut Recorder) {
     if NONTRIVIAL.replace(false) {
